@@ -303,9 +303,10 @@ pub struct Rw<'c> {
     pub gen_idents: Vec<String>,          // generic type parameters of the enclosing item (for typed closure constructors)
     pub typed_ctors: BTreeSet<String>,    // constructors whose signature the spec gives (`@sig <name>__new`)
     pub typed_caps: BTreeSet<String>,     // "<ctor> <capture>" pairs whose type the spec gives (`@captype <ctor> <capture>`)
+    pub local_types: std::collections::BTreeMap<String, String>,   // declared types of parameters and of locals that are clones of them
 }
 /// a closure literal or async block that is used as a value (rules L1 / A3)
-pub struct LiftedClosure { pub k: usize, pub name: String, pub captures: Vec<String>, pub is_move: bool, pub inputs: Vec<syn::Pat>, pub body: syn::Block, pub is_async_block: bool, pub line: usize }
+pub struct LiftedClosure { pub cap_types: Vec<Option<String>>, pub k: usize, pub name: String, pub captures: Vec<String>, pub is_move: bool, pub inputs: Vec<syn::Pat>, pub body: syn::Block, pub is_async_block: bool, pub line: usize }
 fn name_for_ctor(c: &syn::Ident) -> String { c.to_string().trim_end_matches("__new").to_string() }
 fn ident(s: &str) -> syn::Ident { syn::Ident::new(s, Span::call_site()) }
 fn call_last_ident(e: &Expr) -> Option<String> {
@@ -337,7 +338,7 @@ fn has_control_escape(e: &Expr) -> bool {
 }
 
 impl<'c> Rw<'c> {
-    pub fn new(cx: &'c mut Ctx, lifted: bool, binders: BTreeSet<String>, fn_name: String) -> Self { Rw { cx, lifted, binders, lift_prefix: fn_name.replace("::", "__").replace('@', "_"), fn_name, loops: 0, self_to_this: false, closures: 0, lifted_closures: vec![], gen_idents: vec![], typed_ctors: BTreeSet::new(), typed_caps: BTreeSet::new() } }
+    pub fn new(cx: &'c mut Ctx, lifted: bool, binders: BTreeSet<String>, fn_name: String) -> Self { Rw { cx, lifted, binders, lift_prefix: fn_name.replace("::", "__").replace('@', "_"), fn_name, loops: 0, self_to_this: false, closures: 0, lifted_closures: vec![], gen_idents: vec![], typed_ctors: BTreeSet::new(), typed_caps: BTreeSet::new(), local_types: Default::default() } }
 
     fn select_to_match(&mut self, m: &syn::Macro) -> Option<Expr> {
         let arms: Arms = match syn::parse2(m.tokens.clone()) { Ok(a) => a, Err(e) => { self.cx.err(format!("outside dialect: select! arms in {}: {}", self.fn_name, e)); return None; } };
@@ -433,6 +434,15 @@ impl<'c> VisitMut for Rw<'c> {
             // LE1
             if let Stmt::Local(l) = st {
                 l.attrs.clear();
+                // a local that is a clone of a typed place has that type (used only to type captures the spec does not name)
+                if let (syn::Pat::Ident(pi), Some(init)) = (&l.pat, &l.init) {
+                    let src: Option<String> = match &*init.expr {
+                        Expr::MethodCall(m) if (m.method == "clone" || m.method == "to_owned") && m.args.is_empty() => match &*m.receiver { Expr::Path(p) => p.path.get_ident().map(|i| i.to_string()), _ => None },
+                        Expr::Call(c) if c.args.len() == 1 && matches!(nospace(&c.func.to_token_stream().to_string()).as_str(), "Arc::clone" | "Weak::clone" | "std::sync::Arc::clone" | "std::sync::Weak::clone") => match &c.args[0] { Expr::Reference(r) => match &*r.expr { Expr::Path(p) => p.path.get_ident().map(|i| i.to_string()), _ => None }, _ => None },
+                        _ => None,
+                    };
+                    if let Some(sn) = src { if let Some(t) = self.local_types.get(&sn).cloned() { self.local_types.insert(pi.ident.to_string(), t); } }
+                }
                 if let syn::Pat::Type(pt) = &l.pat { // drop partially inferred annotations such as `Weak<_>`
                     if pt.ty.to_token_stream().to_string().contains('_') { l.pat = (*pt.pat).clone(); }
                 }
@@ -532,7 +542,8 @@ impl<'c> VisitMut for Rw<'c> {
             let ctor = ident(&format!("{}__new", name));
             let args: Vec<Expr> = caps.iter().map(|c| { let id = ident(if self.self_to_this && c == "self" { "this" } else { c }); if is_move { parse_quote!(#id) } else { parse_quote!(&#id) } }).collect();
             self.cx.fire(if is_async { "A3" } else { "L1" });
-            self.lifted_closures.push(LiftedClosure { k, name, captures: caps, is_move, inputs, body, is_async_block: is_async, line });
+            let cap_types: Vec<Option<String>> = caps.iter().map(|c| self.local_types.get(c).cloned()).collect();
+            self.lifted_closures.push(LiftedClosure { cap_types, k, name, captures: caps, is_move, inputs, body, is_async_block: is_async, line });
             let cname = ctor.to_string();
             let any_typed = self.lifted_closures.last().map(|l| l.captures.iter().any(|c| self.typed_caps.contains(&format!("{} {}", cname, c)))).unwrap_or(false);
             if self.typed_ctors.contains(&cname) && !self.gen_idents.is_empty() {
